@@ -219,9 +219,9 @@ class Lower:
                 continue
             if self.idx.is_polymorphic(br): has_poly_base = True
             lines.append('  struct %s _b%d;' % (self.need_rec(br), k))
+        if self.idx.is_polymorphic(rec): self.tag_of(cname)
         if self.idx.is_polymorphic(rec) and not has_poly_base:
             lines.append('  int vp_tag;')
-            self.tag_of(cname)
         for f in self.idx.fields(rec):
             t = self.tinfo(f['type'])
             nm = f.get('name') or ('_anon' + f['id'][-4:])
